@@ -187,6 +187,10 @@ class PointSym:
         return Table((self.dim + 1,), {(i,): (LP.sym(f"{self.name}{i}") * w if i < self.dim else w) for i in range(self.dim + 1)})
 
 
+class SymObject:
+    """base of the stand-ins for library objects whose attributes / methods the rules model (hooks)"""
+
+
 class QuadricSym:
     """a quadric object whose matrix is a table (a parameter, or the result of Conic(...) / cls(...))"""
 
@@ -244,6 +248,10 @@ class Interp:
         self.infinite: set[str] = set()  # symbols assumed infinite on this path
         self.roots: RootsOf | None = None
         self.quadric_ctors: set[str] = set()
+        self.depth = 0
+        self.trig = False  # read cos / sin / norm as atoms with their relations (rotation matrices)
+        self.rules: dict = {}  # atom -> (power, value): atom**power rewrites to value (norms, cos^2 = 1 - sin^2)
+        self.hooks: dict = {}  # function name -> callable(args, kwargs) used instead of interpreting the call
 
     # ---- expressions
     def ev(self, e: ast.expr, env: dict):
@@ -298,8 +306,21 @@ class Interp:
             if all(isinstance(v, int) and not isinstance(v, bool) for v in vals):
                 return list(vals)
             return vals
+        if isinstance(e, ast.ListComp) and len(e.generators) == 1 and not e.generators[0].ifs:
+            g = e.generators[0]
+            it_ = self.ev(g.iter, env)
+            if isinstance(it_, (list, tuple, range)) and len(it_) <= 8 and isinstance(g.target, ast.Name):
+                out_ = []
+                for x_ in it_:
+                    env2 = dict(env)
+                    env2[g.target.id] = x_
+                    out_.append(self.ev(e.elt, env2))
+                return out_
+            return Opaque("comprehension")
         if isinstance(e, ast.Attribute):
             base = self.ev(e.value, env)
+            if isinstance(base, SymObject) and hasattr(base, e.attr):
+                return getattr(base, e.attr)
             if isinstance(base, PointSym):
                 if e.attr == "normalized_array":
                     return base.normalized()
@@ -318,6 +339,13 @@ class Interp:
                     return base
                 if e.attr == "shape":
                     return base.shape
+                if e.attr == "ndim":
+                    return len(base.shape)
+                if e.attr == "size":
+                    out_ = 1
+                    for k_ in base.shape:
+                        out_ *= k_
+                    return out_
                 if e.attr in ("dtype", "real"):
                     return Opaque("dtype") if e.attr == "dtype" else base
             return Opaque(f"attribute {e.attr}")
@@ -334,6 +362,19 @@ class Interp:
             return Opaque("subscript")
         if isinstance(e, ast.Call):
             return self.call(e, env)
+        if isinstance(e, ast.Compare) and len(e.ops) == 1:
+            l, r = self.ev(e.left, env), self.ev(e.comparators[0], env)
+            op = e.ops[0]
+            if isinstance(op, (ast.Is, ast.IsNot)) and (l is None or r is None):
+                same_ = l is None and r is None
+                if isinstance(l, Opaque) or isinstance(r, Opaque):
+                    return Opaque("comparison")
+                return same_ if isinstance(op, ast.Is) else not same_
+            if isinstance(l, int) and isinstance(r, int) and not isinstance(l, bool) and not isinstance(r, bool):
+                table = {ast.Eq: l == r, ast.NotEq: l != r, ast.Lt: l < r, ast.LtE: l <= r, ast.Gt: l > r, ast.GtE: l >= r}
+                if type(op) in table:
+                    return table[type(op)]
+            return Opaque("comparison")
         if isinstance(e, ast.Compare):
             return Opaque("comparison")
         return Opaque(type(e).__name__)
@@ -375,6 +416,50 @@ class Interp:
         f = e.func
         name = f.attr if isinstance(f, ast.Attribute) else f.id if isinstance(f, ast.Name) else ""
         is_np = isinstance(f, ast.Attribute) and isinstance(f.value, ast.Name) and f.value.id in ("np", "numpy")
+        if isinstance(f, ast.Attribute) and not is_np:
+            try:
+                recv = self.ev(f.value, env)
+            except (Unknown, NotPolynomial):
+                recv = None
+            if isinstance(recv, SymObject) and hasattr(recv, name):
+                return getattr(recv, name)(*[self.ev(a_, env) for a_ in e.args])
+        if name in self.hooks:
+            args_ = []
+            for a_ in e.args:
+                try:
+                    if isinstance(a_, ast.Starred):
+                        v_ = self.ev(a_.value, env)
+                        args_ += list(v_) if isinstance(v_, (list, tuple)) else [Opaque("star argument")]
+                    else:
+                        args_.append(self.ev(a_, env))
+                except (Unknown, NotPolynomial) as ex:
+                    args_.append(Opaque(str(ex)))
+            kw_ = {}
+            for k_ in e.keywords:
+                if k_.arg is not None:
+                    try:
+                        kw_[k_.arg] = self.ev(k_.value, env)
+                    except (Unknown, NotPolynomial) as ex:
+                        kw_[k_.arg] = Opaque(str(ex))
+            return self.hooks[name](args_, kw_)
+        if name in ("cos", "sin") and len(e.args) == 1 and self.trig:
+            arg = self.lp(self.ev(e.args[0], env))
+            sign = 1
+            lead = sorted(arg.t.items())[0][1] if arg.t else 1
+            if lead < 0:
+                arg, sign = -arg, -1
+            ckey, skey = f"cos({arg.show()})", f"sin({arg.show()})"
+            self.rules[ckey] = (2, LP.const(1) - LP.sym(skey) * LP.sym(skey))
+            return LP.sym(ckey) if name == "cos" else LP.sym(skey) * LP.const(sign)
+        if name == "norm" and len(e.args) == 1 and self.trig:
+            v = self.num(self.ev(e.args[0], env))
+            if isinstance(v, Table) and len(v.shape) == 1:
+                inner = LP()
+                for x in v.data.values():
+                    inner = inner + x * x
+                key = f"sqrt({inner.show()})"
+                self.rules[key] = (2, inner)
+                return LP.sym(key)
         if is_np or isinstance(f, ast.Name):
             if name in ("eye", "identity") and e.args:
                 n = self.ev(e.args[0], env)
@@ -390,6 +475,10 @@ class Interp:
                 v = self.ev(e.args[0], env)
                 if isinstance(v, Table):
                     return v.copy()
+                if isinstance(v, list) and v and all(isinstance(x, list) and not all(isinstance(y, int) for y in x) for x in v):
+                    rows = [[self.lp(y) for y in x] for x in v]
+                    if len({len(r_) for r_ in rows}) == 1:
+                        return Table((len(rows), len(rows[0])), {(i, j): rows[i][j] for i in range(len(rows)) for j in range(len(rows[0]))})
                 if isinstance(v, list):
                     items = [self.num(x) for x in v]
                     if all(isinstance(x, LP) for x in items):
@@ -420,9 +509,28 @@ class Interp:
             if name in ("real_if_close", "ascontiguousarray", "copy") and e.args:
                 return self.ev(e.args[0], env)
             if name == "isinf" and len(e.args) == 1:
-                return Opaque("isinf")
+                try:
+                    return self.test(e, env)
+                except Unknown:
+                    return Opaque("isinf")
+            if name == "arange" and len(e.args) == 1:
+                v = self.ev(e.args[0], env)
+                if isinstance(v, int) and not isinstance(v, bool) and 0 <= v <= 8:
+                    return list(range(v))
             if name in ("float", "int") and len(e.args) == 1:
                 return self.ev(e.args[0], env)
+            if name == "range" and len(e.args) == 1:
+                v = self.ev(e.args[0], env)
+                if isinstance(v, int) and not isinstance(v, bool):
+                    return range(v)
+            if name == "len" and len(e.args) == 1:
+                v = self.ev(e.args[0], env)
+                if isinstance(v, Table):
+                    return v.shape[0]
+                if isinstance(v, (list, tuple)):
+                    return len(v)
+                if isinstance(v, PointSym):
+                    return v.dim + 1
         if name in ("det", "adjugate") and len(e.args) == 1:
             v = self.ev(e.args[0], env)
             t = _stack_rows([self.num(x) for x in v]) if isinstance(v, list) else self.num(v)
@@ -451,17 +559,75 @@ class Interp:
         if isinstance(f, ast.Attribute) and name == "copy" and not e.args:
             v = self.ev(f.value, env)
             return v.copy() if isinstance(v, Table) else v
+        # a helper of the package (module-level function): interpreted with the evaluated arguments
+        if isinstance(f, ast.Name) and self.depth < 4:
+            helper = self.prog.find_func(name)
+            if helper is not None and helper.cls is None and helper.parent is None and name not in ("dist", "angle", "det", "adjugate", "outer", "roots", "inv"):
+                return self.call_helper(helper, e, env)
         if name == "dist" and len(e.args) == 2:
             a, b = self.ev(e.args[0], env), self.ev(e.args[1], env)
             if isinstance(a, PointSym) and isinstance(b, PointSym):
                 return LP.sym("h")  # the distance of the two points, kept as a symbol
         return Opaque(f"call {name}")
 
+    def call_helper(self, helper: FunctionInfo, e: ast.Call, env: dict):
+        helper = self.prog.body_of(helper)
+        a = helper.node.args
+        names = [x.arg for x in a.args]
+        env2: dict = {}
+        for i, arg in enumerate(e.args):
+            if isinstance(arg, ast.Starred) or i >= len(names):
+                return Opaque("star arguments")
+            try:
+                env2[names[i]] = self.ev(arg, env)
+            except (Unknown, NotPolynomial) as ex:
+                env2[names[i]] = Opaque(str(ex))
+        for k in e.keywords:
+            if k.arg is None:
+                return Opaque("star arguments")
+            try:
+                env2[k.arg] = self.ev(k.value, env)
+            except (Unknown, NotPolynomial) as ex:
+                env2[k.arg] = Opaque(str(ex))
+        defaults = a.defaults
+        for i, d in enumerate(defaults):
+            nm = names[len(names) - len(defaults) + i]
+            if nm not in env2:
+                try:
+                    env2[nm] = self.ev(d, {})
+                except (Unknown, NotPolynomial):
+                    env2[nm] = Opaque("default")
+        for kwarg, d in zip(a.kwonlyargs, a.kw_defaults):
+            if kwarg.arg not in env2 and d is not None:
+                try:
+                    env2[kwarg.arg] = self.ev(d, {})
+                except (Unknown, NotPolynomial):
+                    env2[kwarg.arg] = Opaque("default")
+        sub = Interp(self.prog, self.cls, self.assume)
+        sub.depth = self.depth + 1
+        sub.infinite, sub.quadric_ctors = self.infinite, self.quadric_ctors
+        try:
+            sub.block(helper.node.body, env2)
+        except _Done as d:
+            if sub.roots is not None:
+                self.roots = sub.roots
+            return d.matrix
+        except _Raise:
+            return Opaque("the helper raises")
+        return None
+
     # ---- tests
     def test(self, t: ast.expr, env: dict) -> bool:
         """decides the tests that select the case under analysis (self.assume): `isinf(height)`, `isinf(opening)`, `axis != new_axis`"""
         if isinstance(t, ast.UnaryOp) and isinstance(t.op, ast.Not):
             return not self.test(t.operand, env)
+        if isinstance(t, ast.BoolOp):
+            vals = [self.test(v, env) for v in t.values]
+            return all(vals) if isinstance(t.op, ast.And) else any(vals)
+        if isinstance(t, (ast.Name, ast.Attribute)) or (isinstance(t, ast.Compare) and "rotate" not in self.assume):
+            v = self.ev(t, env)
+            if isinstance(v, bool):
+                return v
         if isinstance(t, ast.Call) and (t.func.attr if isinstance(t.func, ast.Attribute) else getattr(t.func, "id", "")) == "isinf" and len(t.args) == 1:
             v = self.ev(t.args[0], env)
             if isinstance(v, LP) and len(v.t) == 1:
